@@ -22,7 +22,7 @@ CHECKS = {
    "trusts the harness's independent codec/AES-CFB8/HMAC (self-tested against published vectors) and the scripted recording adapters standing in for the services", "DESIGN.md §5 C01"),
  "C02": ("vp-conn", True, "exploration", "runtime monitor; exhaustive truncations and single-bit flips of sampled cookies",
    "The should-authenticate flag observed in the Encryption Request is compared with the acceptance rule computed by the harness (independent HMAC) for every truncation length and every single-bit flip (quick: every 8th) of base cookies plus all other cookie classes under intent × secret × expiry; a sample of each class runs to the end of the connection.",
-   "cookie ages within ±10 s of the expiry boundary are not generated (wall clock inside the code)", "DESIGN.md §5 C02"),
+   "cookie ages within ±10 s of the expiry boundary are only generated in the boundary family (age = expiry and expiry + 1 s, presented in the first tenth of a wall-clock second, judged only if the history fitted into that second)", "DESIGN.md §5 C02"),
  "C03": ("vp-conn", True, "exploration", "runtime monitor over recorded adapter arguments and decoded packets",
    "Random routing scenarios with scripted (adversarial) filter and strategy outcomes; the checker compares list hand-over between stages, the Transfer with the chosen target and the Disconnect text with an independent locale fall-back over random tables served by the repository's FixedLocalizationAdapter; long-lived adapter instances are asked random question sequences; an application-level sub-run (vp-net) starts passage from Config::read (tables and default locale in file / environment) and reads the refusal text of complete logins over TCP.",
    "within one scenario tables and client use one spelling style (lower case or Java style)", "DESIGN.md §5 C03"),
@@ -42,7 +42,7 @@ CHECKS = {
    "For five baselines every split offset of every client frame, byte-at-a-time delivery, hostile read chunking and write acceptance, write stalls inside every clientbound frame, backend completions and keep-alive ticks landing inside half-received / half-sent frames (completion × frame × offset) and a pipelining client are executed; the observable trace (packets without Keep Alives, adapter calls, result) must equal the baseline's and the clientbound stream must decrypt and parse completely.",
    "per-connection nonces (verify token, session id, cookie timestamp, keep-alive ids) are masked", "DESIGN.md §5 C08"),
  "C09": ("vp-codec", True, "exploration", "differential runtime monitor against an independent reference codec; exhaustive VarInt sweep in thorough; Miri and valgrind memcheck samples",
-   "Every packet type's writer output is compared byte-for-byte with an independent encoder and its reader is fed reference bytes; VarInt round trip over all 2^32 values (thorough) and boundary-dense VarLong; enum ordinals outside the range must be rejected.",
+   "Every packet type's writer output is compared byte-for-byte with an independent encoder and its reader is fed reference bytes (whole, in pieces, and framed through read_packet with the next frame behind it); VarInt round trip over all 2^32 values (thorough) and boundary-dense VarLong; enum ordinals outside the range must be rejected. A connection-level sub-run (vp-conn) re-encodes every clientbound frame of complete exchanges for 16 handshake protocol versions.",
    "text components outside the UTF-8 = MUTF-8 range are not judged", "DESIGN.md §5 C09"),
  "C10": ("vp-conn", True, "exploration", "two-connection history monitor with independent HMAC/JSON checks",
    "Two-connection histories: the cookies stored on a freshly authenticated, routed connection are verified (independent HMAC, JSON fields, order before the Transfer) and presented again from the same IP / another IP / (thorough) after expiry; session cookie presence, content and id uniqueness are checked on both connections.",
@@ -61,13 +61,13 @@ CHECKS = {
    "closing early is not judged; harness starvation voids timing verdicts", "DESIGN.md §5 C14"),
  "C15": ("vp-net", True, "exploration", "real-TCP admission monitor with per-effective-IP reference counters",
    "Sequences of connections through three loopback peers announcing IPv4/IPv6 sources by PROXY v1/v2 (also split, LOCAL, missing, malformed, disabled version) against a Listener with limiter; served/refused is predicted from per-effective-IP counters, recorded adapter arguments and issued cookies are compared with the announced source; a concurrent burst must serve exactly `limit`.",
-   "the limiter window never rolls during a run", "DESIGN.md §5 C15"),
+   "the limiter window never rolls during the admission sequences (a separate family uses a 2 s window); three listed known findings (lines that are almost a PROXY v1 header are taken for valid by the proxy-header crate) are printed as KNOWN-FINDING", "DESIGN.md §5 C15"),
  "C16": ("vp-net", True, "fault_enumeration", "stall-point enumeration with a latency probe over real TCP",
    "Stallers (1, 8, 64, 300, 600) are placed at each enumerated stall point (before/inside/after the PROXY header, mid-frame in each phase, unanswered Keep Alives) and held for 12 s while more arrive; a flood from a rate-limited address (a stranger, an IPv4-mapped neighbour, a neighbour in the same /64), thousands of distinct sources and clients that never read a large status response are further hostile behaviours; a well-behaved probe must be served within 3 s.",
    "scheduler lateness above half the slack makes the verdict inconclusive", "DESIGN.md §5 C16"),
  "C17": ("vp-net", True, "fault_enumeration", "cancel-instant enumeration over real TCP with server-side timestamps",
    "In-flight connections at enumerated stages, cancellation at random and adversarial instants; connections started ≥ 50 ms after cancel() returned must not be served, cooperating clients must still be transferred, and Listener::listen must not return before the last in-flight connection finished nor later than timeout + 5 s. Further families: connections accepted before the request whose PROXY header is still pending (hook H3), a connect flood across the request, a drain longer than any built-in default, and SIGINT sent to passage::start running in a child process (ctrl-c wiring).",
-   "connections racing the signal within 50 ms are not judged", "DESIGN.md §5 C17"),
+   "schedule-based clauses do not judge connections racing the signal within 50 ms (clocks of different threads); the right-after-stop family takes the order from program order on one thread and decides by count (three or more of 160 / 600 served)", "DESIGN.md §5 C17"),
  "C18": ("vp-route", True, "exploration", "differential runtime monitor against an independent rule evaluator",
    "Filter chains and strategies are built from configuration values (from_config, and Config::read from generated files) and compared with a direct transcription of the statement over tens of thousands of probes. Which identity the filters and strategies are given (the one vouched for on the connection, never the claimed one) is observed at the connection by vp-conn.",
    "missing / non-numeric counts are accepted under either consistent reading", "DESIGN.md §5 C18"),
